@@ -148,7 +148,8 @@ PWMon(st, e) ==
   ELSE LET x == PWrite(st.prefix, st.mid, st.sk, e.p)
            ok == e.res = "ok" IN
        [st |-> [st EXCEPT !.mid = x.mid, !.sk = x.sk],
-        cs |-> << <<"PW", ~ok, <<"Write panicked">> >>,
+        cs |-> << <<"PW", ~S!Runs(e.p) \/ ~S!Runs(st.prefix), <<"harness: chunks and prefixes must be logged as runs">> >>,
+                  <<"PW", ~ok, <<"Write panicked">> >>,
                   <<"PW", ok /\ ~S!Same(e.got, x.out),
                      IF ok THEN <<"sink must receive", x.out, "received", e.got, "chunk", e.p, "prefix", st.prefix,
                                   "at line start", ~st.mid, "sink", st.sk>> ELSE <<>> >>,
